@@ -18,6 +18,7 @@ import OciModel.Driver.UnifyConc
 import OciModel.Driver.Auth
 import OciModel.Driver.Iter
 import OciModel.Driver.SrvHandlers
+import OciModel.Driver.Resp
 
 structure DState where
   scopes : OciModel.Driver.Scope.Regs := []
@@ -39,6 +40,7 @@ def step (st : DState) (line : String) : DState × String :=
     let (m, out) := OciModel.Driver.Mem.drive st.mem rest
     ({ st with mem := m }, out)
   | "srv" :: _ => (st, "skip")
+  | "resp" :: rest => (st, OciModel.Driver.Resp.drive rest)
   | "srvh" :: rest => (st, OciModel.Driver.SrvHandlers.drive rest)
   | "auth" :: rest =>
     let (a, out) := OciModel.Driver.Auth.drive st.auth rest
